@@ -109,6 +109,8 @@ type obs struct {
 	ReadRes     string `json:"readRes,omitempty"`
 	Wrote       int    `json:"wrote,omitempty"`
 	ReadVal     int    `json:"readVal,omitempty"`
+	Wrote2      int    `json:"wrote2,omitempty"`
+	ReadVal2    int    `json:"readVal2,omitempty"`
 	EpToks      []tokp `json:"epToks,omitempty"`
 	Session     bool   `json:"session,omitempty"`
 	Raw         string `json:"raw,omitempty"`
@@ -325,6 +327,8 @@ func evalAdv(r row, o obs) {
 	vfgo.OK(r, class, map[string]any{"src": src, "advertised": len(have), "readings": nviews})
 }
 
+func handBuiltProbe(o obs) bool { return !o.Local }
+
 func supported(p pair) bool {
 	if p.Pol == "None" {
 		return p.Mode == "None"
@@ -357,7 +361,7 @@ func evalOpn(r row, o obs) {
 	case exp == "open" && !o.Usable:
 		vfgo.Violation(r, class, "enabled-pair-channel-unusable", fmt.Sprintf("OPN %s/%s accepted but a request on the channel failed: %s", r.Pol, r.Mode, o.Err))
 	default:
-		vfgo.OK(r, class, map[string]any{"established": o.Established, "srvOpened": o.SrvOpened, "raw": o.RawOpn, "err": tailStr(o.Err, 120)})
+		vfgo.OK(r, class, map[string]any{"established": o.Established, "srvOpened": o.SrvOpened, "raw": o.RawOpn, "handBuiltProbeOK": !o.RawOpn || r.Pol != "None" || handBuiltProbe(o), "err": tailStr(o.Err, 120)})
 	}
 }
 
@@ -390,7 +394,7 @@ func evalInterop(r row, o obs, srv obs) {
 			return
 		}
 	}
-	if exp.State != "Connected" || len(exp.Ops) != 2 {
+	if exp.State != "Connected" || len(exp.Ops) != 5 {
 		vfgo.Inconclusive(r, "unexpected expectation in row")
 		return
 	}
@@ -409,6 +413,10 @@ func evalInterop(r row, o obs, srv obs) {
 		vfgo.Violation(r, class, "read-fails", fmt.Sprintf("read: %s %s", o.ReadRes, o.Err))
 	case o.ReadVal != o.Wrote:
 		vfgo.Violation(r, class, "read-back-differs", fmt.Sprintf("wrote %d read %d", o.Wrote, o.ReadVal))
+	case o.Stage == "reactivate":
+		vfgo.Violation(r, class, "session-cannot-be-activated-again", fmt.Sprintf("second ActivateSession on %s/%s tok=%s: %s", r.Pol, r.Mode, r.Tok, o.Err))
+	case o.Stage == "write2" || o.Stage == "read2" || o.Wrote2 == 0 || o.ReadVal2 != o.Wrote2:
+		vfgo.Violation(r, class, "write-read-fails-after-second-activation", fmt.Sprintf("stage %s wrote %d read %d: %s", o.Stage, o.Wrote2, o.ReadVal2, o.Err))
 	default:
 		vfgo.OK(r, class, map[string]any{"wrote": o.Wrote, "read": o.ReadVal, "state": o.State})
 	}
@@ -536,6 +544,9 @@ func childServer() {
 		}
 		return vs
 	}
+	probeOK := probeHandBuilt(url, sk) // eagerly: it opens channels, which must not fall into a row's observation window
+	time.Sleep(50 * time.Millisecond)
+	handBuiltOK = func() bool { return probeOK }
 	so := obs{I: -1, API: toEndp(srv.Endpoints())}
 	so.Views = readViews("start", url, urlB, url)
 	eps, err := discover(url, job.Cfg, sk)
@@ -673,7 +684,24 @@ func doOpn(url string, r row, sk *keys.Pair) obs {
 // refuses to configure: a real uasc client channel is created with a valid mode for the policy and the
 // mode in its configuration is replaced before Open, so the request carries the invalid combination
 // (asymmetric crypto of the OPN follows the policy).
+// handBuiltOK: does the hand-built OPN reach the server's OPN handling at all? Checked once per server by
+// sending the well-formed (None, None) request both ways: if the library's client gets a channel and the
+// hand-built request does not, the hand-built rows are not driven (never counted as "refused").
+var handBuiltOK = func() bool { return true }
+
+func probeHandBuilt(url string, sk *keys.Pair) bool {
+	real := doOpnClient(url, row{Pol: "None", Mode: "None"}, sk, 4*time.Second)
+	hand := doOpnHandBuilt(url, row{Pol: "None", Mode: "None"})
+	return hand.Established == real.Established
+}
+
 func doOpnRaw(url string, r row, sk *keys.Pair) obs {
+	if r.Pol == "None" {
+		if !handBuiltOK() {
+			return obs{RawOpn: true, Local: true, Err: "hand-built OPN does not behave like the library's own (None, None) request"}
+		}
+		return doOpnHandBuilt(url, r)
+	}
 	o := obs{RawOpn: true}
 	ctx, cancel := context.WithTimeout(context.Background(), 8*time.Second)
 	defer cancel()
@@ -723,6 +751,61 @@ func doOpnRaw(url string, r row, sk *keys.Pair) obs {
 		o.Err = "request on the opened channel: " + err.Error()
 	}
 	go sc.Close()
+	return o
+}
+
+// doOpnHandBuilt writes an OpenSecureChannel request with SecurityPolicy#None and the row's mode byte by
+// byte onto a fresh UACP connection (policy None: nothing to sign or encrypt) and looks at what comes back.
+func doOpnHandBuilt(url string, r row) obs {
+	o := obs{RawOpn: true}
+	ctx, cancel := context.WithTimeout(context.Background(), 8*time.Second)
+	defer cancel()
+	ack := *uacp.DefaultClientACK
+	d := &uacp.Dialer{Dialer: &net.Dialer{Timeout: 4 * time.Second}, ClientACK: &ack}
+	conn, err := d.Dial(ctx, url)
+	if err != nil {
+		o.Err = "dial: " + err.Error()
+		return o
+	}
+	defer conn.Close()
+	req := &ua.OpenSecureChannelRequest{
+		RequestHeader: &ua.RequestHeader{AuthenticationToken: ua.NewTwoByteNodeID(0), Timestamp: time.Now(), RequestHandle: 1,
+			TimeoutHint: 5000, AdditionalHeader: ua.NewExtensionObject(nil)},
+		ClientProtocolVersion: 0,
+		RequestType:           ua.SecurityTokenRequestTypeIssue,
+		SecurityMode:          modeOf(r.Mode),
+		ClientNonce:           []byte{},
+		RequestedLifetime:     3600 * 1000,
+	}
+	m := &uasc.Message{
+		MessageHeader: &uasc.MessageHeader{
+			Header:                   uasc.NewHeader(uasc.MessageTypeOpenSecureChannel, uasc.ChunkTypeFinal, 0),
+			AsymmetricSecurityHeader: uasc.NewAsymmetricSecurityHeader(ua.SecurityPolicyURINone, nil, nil),
+			SequenceHeader:           uasc.NewSequenceHeader(1, 1),
+		},
+		TypeID:  ua.NewFourByteExpandedNodeID(0, id.OpenSecureChannelRequest_Encoding_DefaultBinary),
+		Service: req,
+	}
+	b, err := m.Encode()
+	if err != nil {
+		o.Local, o.Err = true, "cannot encode the hand-built OPN: "+err.Error()
+		return o
+	}
+	if _, err := conn.Write(b); err != nil {
+		o.Err = "write: " + err.Error()
+		return o
+	}
+	conn.SetReadDeadline(time.Now().Add(3 * time.Second))
+	rb, err := conn.Receive()
+	switch {
+	case err != nil:
+		o.Err = "no OPN response: " + err.Error()
+	case len(rb) >= 3 && string(rb[:3]) == "OPN":
+		o.Established, o.Usable = true, true
+		o.Err = "server answered with an OpenSecureChannel response"
+	default:
+		o.Err = fmt.Sprintf("server answered with %q", string(rb[:min(3, len(rb))]))
+	}
 	return o
 }
 
@@ -813,37 +896,63 @@ func doInterop(url string, r row, c cfgT, sk *keys.Pair, i int) obs {
 	defer cl.Close(ctx)
 	o.State = cl.State().String()
 	nid := ua.NewStringNodeID(1, "rw_int32")
-	o.Wrote = int(vfgo.Seed()%1000)*100000 + i + 1000
-	wres, err := cl.Write(ctx, &ua.WriteRequest{NodesToWrite: []*ua.WriteValue{{
-		NodeID: nid, AttributeID: ua.AttributeIDValue,
-		Value: &ua.DataValue{EncodingMask: ua.DataValueValue, Value: ua.MustVariant(int32(o.Wrote))},
-	}}})
-	if err != nil {
-		o.Stage, o.Err = "write", err.Error()
-		return o
-	}
-	if len(wres.Results) != 1 {
-		o.Stage, o.Err = "write", fmt.Sprintf("%d results", len(wres.Results))
-		return o
-	}
-	o.WriteRes = statusName(wres.Results[0])
-	rres, err := cl.Read(ctx, &ua.ReadRequest{NodesToRead: []*ua.ReadValueID{{NodeID: nid, AttributeID: ua.AttributeIDValue}}, TimestampsToReturn: ua.TimestampsToReturnBoth})
-	if err != nil {
-		o.Stage, o.Err = "read", err.Error()
-		return o
-	}
-	if len(rres.Results) != 1 {
-		o.Stage, o.Err = "read", fmt.Sprintf("%d results", len(rres.Results))
-		return o
-	}
-	o.ReadRes = statusName(rres.Results[0].Status)
-	if v := rres.Results[0].Value; v != nil {
-		if x, ok := v.Value().(int32); ok {
-			o.ReadVal = int(x)
-		} else {
+	writeRead := func(val int, wstage, rstage string) (int, bool) {
+		wres, err := cl.Write(ctx, &ua.WriteRequest{NodesToWrite: []*ua.WriteValue{{
+			NodeID: nid, AttributeID: ua.AttributeIDValue,
+			Value: &ua.DataValue{EncodingMask: ua.DataValueValue, Value: ua.MustVariant(int32(val))},
+		}}})
+		if err != nil {
+			o.Stage, o.Err = wstage, err.Error()
+			return 0, false
+		}
+		if len(wres.Results) != 1 {
+			o.Stage, o.Err = wstage, fmt.Sprintf("%d results", len(wres.Results))
+			return 0, false
+		}
+		o.WriteRes = statusName(wres.Results[0])
+		if o.WriteRes != "OK" {
+			o.Stage = wstage
+			return 0, false
+		}
+		rres, err := cl.Read(ctx, &ua.ReadRequest{NodesToRead: []*ua.ReadValueID{{NodeID: nid, AttributeID: ua.AttributeIDValue}}, TimestampsToReturn: ua.TimestampsToReturnBoth})
+		if err != nil {
+			o.Stage, o.Err = rstage, err.Error()
+			return 0, false
+		}
+		if len(rres.Results) != 1 {
+			o.Stage, o.Err = rstage, fmt.Sprintf("%d results", len(rres.Results))
+			return 0, false
+		}
+		o.ReadRes = statusName(rres.Results[0].Status)
+		if o.ReadRes != "OK" {
+			o.Stage = rstage
+			return 0, false
+		}
+		if v := rres.Results[0].Value; v != nil {
+			if x, ok := v.Value().(int32); ok {
+				return int(x), true
+			}
 			o.Err = fmt.Sprintf("value type %T", v.Value())
 		}
+		return 0, true
 	}
+	o.Wrote = int(vfgo.Seed()%1000)*100000 + 2*i + 1000
+	var ok bool
+	if o.ReadVal, ok = writeRead(o.Wrote, "write", "read"); !ok || o.ReadVal != o.Wrote {
+		return o
+	}
+	// second activation of the same session on the same channel (what restoreSession does after a reconnect)
+	sess, _ := cl.DetachSession(ctx)
+	if sess == nil {
+		o.Stage, o.Err = "reactivate", "no session to detach"
+		return o
+	}
+	if err := cl.ActivateSession(ctx, sess); err != nil {
+		o.Stage, o.Err = "reactivate", err.Error()
+		return o
+	}
+	o.Wrote2 = o.Wrote + 1
+	o.ReadVal2, _ = writeRead(o.Wrote2, "write2", "read2")
 	return o
 }
 
